@@ -40,6 +40,11 @@ _FZ_FMT_TOKENS = [b"{", b"}", b"{{", b"}}", b"{}", b"{&1}", b"{&2}", b"{_*", b"{
 _FZ_CODEC_SEEDS = [b"\x0148656c6c6f", b"\x01DEADbeef00ff", b"\x00SGVsbG8=", b"\x00SGVsbA==", b"\x00AAAA////++++", b"\x00QUJD", b"\x01", b"\x00"]
 _FZ_CODEC_TOKENS = [b"=", b"==", b"AA==", b"AAA=", b"AAAA", b"/+", b"0f", b"F0", b"\x80", b"\xff", b"\x00"]
 
+# thorough tier only: the same harness without sanitizers at -O2 (what users of a header-only library compile with): behaviour
+# that depends on the optimiser exploiting undefined behaviour the sanitizers cannot see (type punning, for one) shows as a
+# mismatch with the reference model
+PLAIN_O2 = {"build": "plain", "name": "plain-O2", "flags": ["-O2"], "tiers": ("thorough",)}
+
 PROPS = {}
 NOT_APPLICABLE = {}
 
@@ -167,6 +172,7 @@ _CONV_ASSUME = [
 ]
 
 P("C01", "well-formed text transcodes losslessly and to the standard encoding", "conv",
+  runs=[ASAN, PLAIN_O2],
   level_text=("runtime monitoring: scalar sequences are encoded by an independent reference encoder and pushed through every public conversion route (free converters with pointer/buffer/char8_t overloads, "
               "ST::string constructors/set/operator=/from_*/to_*/to_buffer, std string and string_view overloads, literal operators) in all three modes under ASan+UBSan; every result is compared unit for unit with the reference "
               "encoding. Thorough: every one of the 1,112,064 scalars in 13 neighbour contexts; quick: all scalars near every width boundary + a stride-61 sample; all 256 Latin-1 bytes at positions of strings of length 1..20"),
@@ -248,7 +254,7 @@ P("C17", "all output sinks emit the same bytes for the same format call", "sinks
   dbits={"quick": 22, "thorough": 25})
 
 P("C05", "buffers keep size, content, terminator and exclusive ownership over any history", "buffer",
-  runs=[ASAN, MEMCHECK],
+  runs=[ASAN, MEMCHECK, PLAIN_O2],
   level_text=("runtime monitoring of histories: for each of char, wchar_t, char16_t and char32_t a pool of 8 buffers (each in a heap block of exactly sizeof(buffer) bytes) is driven through random sequences of "
               "construction, copy, move, copy/move assignment incl. self-assignment, allocate, clear, element writes, reads and destruction under ASan+UBSan; after every step every live buffer is compared with a "
               "shadow std::basic_string, its terminator is read, and its storage is classified through the replaced operator new/delete registry (in-object below the limit, otherwise exactly one exclusive new[] block of "
@@ -264,6 +270,7 @@ P("C05", "buffers keep size, content, terminator and exclusive ownership over an
   dbits={"quick": 22, "thorough": 25})
 
 P("C04", "ST::string has value semantics: reads never mutate, results never alias", "value",
+  runs=[ASAN, PLAIN_O2],
   level_text=("runtime monitoring of histories: a pool of 12 strings of every size class (each object in a heap block of exactly sizeof(ST::string) bytes) is driven through random sequences of ~30 kinds of const "
               "operations (slicing, trimming, case mapping, replace, split, tokenize, concatenation, conversions, comparison/search/hash, formatting, streaming, copies; deliberately including results equal to the source) "
               "and ~16 mutators (assignment, set, +=, clear, moves, and the self-referential s=s, s+=s, s.set(s), s=move(s), s.replace(s,s), s=s.substr(1)) under ASan+UBSan; every live string is snapshotted (bytes, size, data "
